@@ -289,5 +289,41 @@ def search (edb : DP17EDB) (tk : List Bytes) : Except Err (List Bytes) :=
   | [tag, vtag, etag] => searchCounts cfg lv edb tag vtag etag cfg.L.toNat 1
   | _ => .error .typeError
 
+/-- the number of chunks `Setup` cuts a list into: `ceil(n / 2^i)` for the level `i` adjacent to its length -/
+def nChunks (levels : List Int) (ids : List Bytes) : Nat :=
+  match findAdjacent cfg levels ids.length with
+  | .ok i => ceilDiv ids.length (2 ^ i.toNat)
+  | .error _ => 0
+
+def nodupBy : List Bytes → Bool
+  | [] => true
+  | a :: as => !as.contains a && nodupBy as
+
+/-- the hypotheses of `Props/C01: DP17.search_stored`, as a computation the driver runs on every recorded case: distinct
+    keywords, identifiers of the configured size, the hash-table keys `H(F_k1(w) ‖ c)` of all chunks pairwise different and
+    different from every random filler, every recorded shuffle a permutation; and of `Props/C02: DP17.search_absent_empty` -/
+def hypsB (key : List Bytes) (db : DB) (t : Tape) (absent : List Bytes) : Bool :=
+  match key with
+  | [k1, _, _] =>
+    match levelsOf cfg db.total with
+    | .error _ => false
+    | .ok levels =>
+      let tapeBytes := t.filterMap fun d => match d with | .bytes b => some b | _ => none
+      let perms := t.filterMap fun d => match d with | .nats p => some p | _ => none
+      let keys := db.flatMap fun p => (List.range (nChunks cfg levels p.2)).map fun c => htKey cfg lv k1 p.1 (c + 1)
+      nodupBy (db.map (·.1)) &&
+      db.all (fun p => p.2.all fun x => (x.length : Int) == cfg.idSize) &&
+      keys.all (fun k => match k with | .ok g => !tapeBytes.contains g | .error _ => false) &&
+      nodupBy (keys.map fun k => match k with | .ok g => g | .error _ => []) &&
+      perms.all (fun p => p.isPerm (List.range p.length)) &&
+      -- C02: no probe of an absent keyword is in the hash table
+      (match setup cfg lv key db t with
+       | .ok (e, _) => absent.all fun w => match cfg.prfF.call lv.hmac k1 w with
+          | .ok tag => (List.range cfg.L.toNat).all fun c => match hashH cfg lv (tag ++ natToBytesMin (c + 1)) with
+            | .ok g => (e.HT.get g).isNone | .error _ => false
+          | .error _ => false
+       | .error _ => false)
+  | _ => false
+
 end DP17
 end SSEPy.Sch
